@@ -1,7 +1,438 @@
-/- Model `Queue` (driver token `queue`) — stub, to be filled in. -/
-namespace Stab.Queue
+/-
+  Model `Queue` (driver token `queue`) of `stabilize.queue.sqlite` (SqliteQueue + SqliteDLQMixin),
+  `persistence/sqlite/transaction.py:push_message` and the poll / ack / reschedule protocol the
+  processor drives (`queue/processor/processor.py`).
 
-/-- driver entry: the rest of the request line after the model token -/
-def drive (_rest : String) : String := "unimplemented"
+  What is modelled, statement by statement (the WHERE clauses are mirrored literally):
+
+  * `push`             INSERT … attempts 0, max_attempts = queue.max_attempts, version 0 (default), lock NULL
+  * `pushTxn m`        AtomicTransaction.push_message: same INSERT but with ITS OWN max_attempts value `m`
+                       (`getattr(message, "max_attempts", 10)`), committed by the surrounding transaction
+  * `inject kind`      (environment) a row whose payload cannot be deserialised: 1 = invalid JSON
+                       (poll_one claims it, then moves it to the DLQ), 2 = unknown message type
+                       (poll_one claims it and then raises)
+  * `pollSelect w`     the SELECT of poll_one: deliverable ∧ (locked_until NULL ∨ lapsed) ∧
+                       attempts < QUEUE.max_attempts, ORDER BY deliver_at LIMIT 1
+  * `pollClaim w`      the UPDATE … WHERE id = :id AND version = :version (lock, attempts+1, version+1) + commit;
+                       it does NOT re-check the lock — only the version
+  * `poll w`           both, with nothing in between
+  * `ack`              DELETE WHERE id (unconditional)
+  * `reschedule`       UPDATE SET deliver_at, locked_until = NULL WHERE id (unconditional, no version bump)
+  * `extend`           UPDATE SET locked_until WHERE id (unconditional, no version bump)
+  * `moveToDlq`        DELETE … RETURNING + INSERT INTO dlq, ONE commit
+  * `sweep`            check_and_move_expired: SELECT WHERE attempts >= max_attempts (the ROW's column),
+                       then move_to_dlq per row, one commit each
+  * `replay`           DELETE FROM dlq RETURNING + INSERT (new row id, attempts 0, column defaults:
+                       max_attempts 10, version 0, lock NULL), ONE commit
+  * `expire id` / `mature id`   abstract time: the row's lock lapses / its deliver_at is reached
+  * `crash a k`        the process dies at the (k+1)-th commit of `a`: the first `k` commits are durable,
+                       everything in memory (pending SELECT results, leases) is gone
+
+  Ordering (`ORDER BY deliver_at`, a TEXT comparison): every statement that writes `deliver_at`
+  stamps the row with a logical clock; rows written by `replay_dlq` use SQLite's
+  `YYYY-MM-DD HH:MM:SS` format, which sorts before Python's ISO format (`…T…`) of the same date,
+  hence the `front` flag.  Order = front rows first, then stamp, then row id.  No theorem depends on
+  the order — only on `pick_mem` (the selected row is one of the eligible rows).
+
+  Ghost state: `acked` (payload tags removed by `ack`), `leases` (worker `w` was handed row `id` by a
+  successful claim and has not released it; `live = false` once its lock lapsed), worker ids.
+  The payload is abstracted to a unique `tag` (the harness puts the tag into the message).
+-/
+import Stab.Model.Basic
+
+namespace Stab.Queue
+open Stab
+
+inductive Lock where
+  | free | held | lapsed
+  deriving DecidableEq, Repr
+
+structure Row where
+  id : Nat
+  tag : Nat
+  bad : Nat            -- 0 fine, 1 invalid JSON, 2 unknown type
+  attempts : Nat
+  maxAtt : Nat         -- the row's own max_attempts column
+  version : Nat
+  lock : Lock
+  deliverable : Bool
+  front : Bool
+  stamp : Nat
+  deriving DecidableEq, Repr
+
+structure DRow where
+  did : Nat
+  origId : Nat
+  tag : Nat
+  bad : Nat
+  attempts : Nat
+  deriving DecidableEq, Repr
+
+/-- result of worker `w`'s SELECT, kept until its UPDATE -/
+structure Sel where
+  w : Nat
+  id : Nat
+  version : Nat
+  attempts : Nat
+  deriving DecidableEq, Repr
+
+structure Lease where
+  w : Nat
+  id : Nat
+  live : Bool
+  deriving DecidableEq, Repr
+
+structure State where
+  maxAttempts : Nat            -- SqliteQueue(max_attempts=…)
+  rows : List Row := []
+  dlq : List DRow := []
+  acked : List Nat := []
+  nextId : Nat := 1
+  nextDid : Nat := 1
+  nextTag : Nat := 0
+  clock : Nat := 0
+  sels : List Sel := []
+  leases : List Lease := []
+  deriving Repr
+
+def init (maxAttempts : Nat) : State := { maxAttempts }
+
+/-- `max_attempts INTEGER DEFAULT 10` — what `replay_dlq` (which omits the column) gets -/
+def columnDefaultMaxAtt : Nat := 10
+
+inductive Act where
+  | push (delay : Bool)
+  | pushTxn (maxAtt : Nat) (delay : Bool)
+  | inject (bad : Nat)
+  | pollSelect (w : Nat)
+  | pollClaim (w : Nat)
+  | poll (w : Nat)
+  | ack (w id : Nat)
+  | reschedule (w id : Nat) (delay : Bool)
+  | extend (w id : Nat)
+  | expire (id : Nat)
+  | mature (id : Nat)
+  | moveToDlq (id : Nat)
+  | sweep
+  | replay (did : Nat)
+  deriving DecidableEq, Repr
+
+inductive Op where
+  | act (a : Act)
+  | crash (a : Act) (k : Nat)
+  deriving DecidableEq, Repr
+
+/-! ### primitive transitions (each is one committed statement group, or an in-memory change) -/
+
+inductive Prim where
+  | pushRow (maxAtt bad : Nat) (delay : Bool)
+  | setSel (w : Nat)
+  | dropSel (w : Nat)
+  | claimSel (w : Nat) (dlqCorrupt : Bool)
+  | ackRow (w id : Nat)
+  | resched (w id : Nat) (delay : Bool)
+  | extend (w id : Nat)
+  | expire (id : Nat)
+  | mature (id : Nat)
+  | moveToDlq (id : Nat)
+  | replay (did : Nat)
+  | kill
+  deriving DecidableEq, Repr
+
+/-- the WHERE clause of the poll SELECT -/
+def eligible (maxAttempts : Nat) (r : Row) : Bool :=
+  r.deliverable && r.lock != .held && decide (r.attempts < maxAttempts)
+
+/-- `a` sorts strictly before `b` under `ORDER BY deliver_at` -/
+def before (a b : Row) : Bool :=
+  (a.front && !b.front) || (a.front == b.front && decide (a.stamp < b.stamp))
+
+/-- `ORDER BY deliver_at LIMIT 1` (ties: lowest row id = first in the list) -/
+def pick : List Row → Option Row
+  | [] => none
+  | r :: rs =>
+    match pick rs with
+    | none => some r
+    | some b => if before b r then some b else some r
+
+def candidate (s : State) : Option Row := pick (s.rows.filter (eligible s.maxAttempts))
+
+def selOf (s : State) (w : Nat) : Option Sel := s.sels.find? (fun x => x.w == w)
+
+def dropSels (w : Nat) (sels : List Sel) : List Sel := sels.filter (fun x => x.w != w)
+
+/-- the row the claim UPDATE of `x` matches (`WHERE id = :id AND version = :version`) -/
+def matched (s : State) (x : Sel) : Option Row :=
+  s.rows.find? (fun r => r.id == x.id && r.version == x.version)
+
+def pushRow (s : State) (maxAtt bad : Nat) (delay : Bool) : State :=
+  { s with
+    rows := s.rows ++ [{ id := s.nextId, tag := s.nextTag, bad, attempts := 0, maxAtt, version := 0,
+                         lock := .free, deliverable := !delay, front := false, stamp := s.clock }]
+    nextId := s.nextId + 1, nextTag := s.nextTag + 1, clock := s.clock + 1 }
+
+def setSel (s : State) (w : Nat) : State :=
+  match candidate s with
+  | none => { s with sels := dropSels w s.sels }
+  | some r => { s with sels := ⟨w, r.id, r.version, r.attempts⟩ :: dropSels w s.sels }
+
+def moveToDlq (s : State) (i : Nat) : State :=
+  match s.rows.find? (fun r => r.id == i) with
+  | none => s
+  | some r =>
+    { s with rows := s.rows.filter (fun r => r.id != i)
+             dlq := s.dlq ++ [⟨s.nextDid, r.id, r.tag, r.bad, r.attempts⟩]
+             nextDid := s.nextDid + 1 }
+
+def dropLeases (w i : Nat) (ls : List Lease) : List Lease := ls.filter (fun l => !(l.w == w && l.id == i))
+
+def claimRows (rows : List Row) (i v : Nat) : List Row :=
+  rows.map (fun r => if r.id == i && r.version == v
+    then { r with lock := .held, attempts := r.attempts + 1, version := r.version + 1 } else r)
+
+def claimSel (s : State) (w : Nat) (dlqCorrupt : Bool) : State :=
+  match selOf s w with
+  | none => s
+  | some x =>
+    let s0 := { s with sels := dropSels w s.sels }
+    match matched s x with
+    | none => s0
+    | some r =>
+      let s1 := { s0 with rows := claimRows s0.rows x.id x.version }
+      -- a new claim by the same worker supersedes its older (lapsed) lease on that row
+      if r.bad == 0 then { s1 with leases := ⟨w, r.id, true⟩ :: dropLeases w r.id s1.leases }
+      else if r.bad == 1 && dlqCorrupt then moveToDlq s1 r.id
+      else s1
+
+def ackRow (s : State) (w i : Nat) : State :=
+  { s with rows := s.rows.filter (fun r => r.id != i)
+           acked := s.acked ++ (s.rows.filter (fun r => r.id == i)).map (·.tag)
+           leases := dropLeases w i s.leases }
+
+def resched (s : State) (w i : Nat) (delay : Bool) : State :=
+  { s with rows := s.rows.map (fun r => if r.id == i
+             then { r with deliverable := !delay, front := false, stamp := s.clock, lock := .free } else r)
+           clock := s.clock + 1
+           leases := dropLeases w i s.leases }
+
+def extend (s : State) (w i : Nat) : State :=
+  { s with rows := s.rows.map (fun r => if r.id == i then { r with lock := .held } else r)
+           leases := if s.rows.any (fun r => r.id == i)
+                     then s.leases.map (fun l => if l.w == w && l.id == i then { l with live := true } else l)
+                     else s.leases }
+
+def expire (s : State) (i : Nat) : State :=
+  { s with rows := s.rows.map (fun r => if r.id == i && r.lock == .held then { r with lock := .lapsed } else r)
+           leases := s.leases.map (fun l => if l.id == i then { l with live := false } else l) }
+
+def mature (s : State) (i : Nat) : State :=
+  { s with rows := s.rows.map (fun r => if r.id == i then { r with deliverable := true } else r) }
+
+def replay (s : State) (d : Nat) : State :=
+  match s.dlq.find? (fun x => x.did == d) with
+  | none => s
+  | some x =>
+    { s with dlq := s.dlq.filter (fun y => y.did != d)
+             rows := s.rows ++ [{ id := s.nextId, tag := x.tag, bad := x.bad, attempts := 0,
+                                  maxAtt := columnDefaultMaxAtt, version := 0, lock := .free,
+                                  deliverable := true, front := true, stamp := s.clock }]
+             nextId := s.nextId + 1, clock := s.clock + 1 }
+
+def kill (s : State) : State := { s with sels := [], leases := [] }
+
+def applyPrim (s : State) : Prim → State
+  | .pushRow m b d => pushRow s m b d
+  | .setSel w => setSel s w
+  | .dropSel w => { s with sels := dropSels w s.sels }
+  | .claimSel w c => claimSel s w c
+  | .ackRow w i => ackRow s w i
+  | .resched w i d => resched s w i d
+  | .extend w i => extend s w i
+  | .expire i => expire s i
+  | .mature i => mature s i
+  | .moveToDlq i => moveToDlq s i
+  | .replay d => replay s d
+  | .kill => kill s
+
+def applyPrims (s : State) (ps : List Prim) : State := ps.foldl applyPrim s
+
+/-- ids the sweep's SELECT returns (`WHERE attempts >= max_attempts`, table order) -/
+def sweepIds (s : State) : List Nat :=
+  (s.rows.filter (fun r => decide (r.attempts ≥ r.maxAtt))).map (·.id)
+
+/-- The committed steps of an action; `budget = some k` keeps only what the first `k` commits make durable. -/
+def primsOf (s : State) (a : Act) (budget : Option Nat) : List Prim :=
+  let one (p : Prim) : List Prim := if budget == some 0 then [] else [p]
+  match a with
+  | .push d => one (.pushRow s.maxAttempts 0 d)
+  | .pushTxn m d => one (.pushRow m 0 d)
+  | .inject b => one (.pushRow s.maxAttempts b false)
+  | .pollSelect w => [.setSel w]                       -- no commit: only the worker's memory changes
+  | .pollClaim w =>
+    match budget with
+    | some 0 => [.dropSel w]
+    | some 1 => [.claimSel w false]
+    | _ => [.claimSel w true]
+  | .poll w =>
+    match budget with
+    | some 0 => [.setSel w, .dropSel w]
+    | some 1 => [.setSel w, .claimSel w false]
+    | _ => [.setSel w, .claimSel w true]
+  | .ack w i => one (.ackRow w i)
+  | .reschedule w i d => one (.resched w i d)
+  | .extend w i => one (.extend w i)
+  | .expire i => [.expire i]
+  | .mature i => [.mature i]
+  | .moveToDlq i => one (.moveToDlq i)
+  | .sweep =>
+    let ids := sweepIds s
+    (match budget with | some k => ids.take k | none => ids).map Prim.moveToDlq
+  | .replay d => one (.replay d)
+
+def opPrims (s : State) : Op → List Prim
+  | .act a => primsOf s a none
+  | .crash a k => primsOf s a (some k) ++ [.kill]
+
+/-- one operation -/
+def next (s : State) (op : Op) : State := applyPrims s (opPrims s op)
+
+def run (s : State) (ops : List Op) : State := ops.foldl next s
+
+/-! ### what the caller sees -/
+
+inductive Out where
+  | ok | none | nosel | raised | crashed
+  | sel (id version : Nat)
+  | got (id tag attempts : Nat)
+  | bool (b : Bool)
+  | count (n : Nat)
+  deriving DecidableEq, Repr
+
+/-- would the claim UPDATE of worker `w` hit a row (`rowcount == 1`)? -/
+def claimHits (s : State) (w : Nat) : Option Row :=
+  match selOf s w with
+  | none => none
+  | some x => matched s x
+
+def claimOut (s : State) (w : Nat) : Out :=
+  match selOf s w with
+  | none => .nosel
+  | some x =>
+    match matched s x with
+    | none => .none
+    | some r => if r.bad == 0 then .got r.id r.tag (r.attempts + 1) else if r.bad == 1 then .none else .raised
+
+def outOf (s : State) : Op → Out
+  | .crash _ _ => .crashed
+  | .act a =>
+    match a with
+    | .push _ | .pushTxn _ _ | .inject _ | .ack _ _ | .reschedule _ _ _ | .expire _ | .mature _ | .moveToDlq _ => .ok
+    | .pollSelect _ => match candidate s with | none => .none | some r => .sel r.id r.version
+    | .pollClaim w => claimOut s w
+    | .poll w => match candidate s with | none => .none | some _ => claimOut (setSel s w) w
+    | .extend _ i => .bool (s.rows.any (fun r => r.id == i))
+    | .sweep => .count (sweepIds s).length
+    | .replay d => .bool (s.dlq.any (fun x => x.did == d))
+
+/-! ### ghost predicates used by the theorems -/
+
+def hasLive (s : State) (w i : Nat) : Bool := s.leases.any (fun l => l.w == w && l.id == i && l.live)
+
+/-- a reschedule / heartbeat is *disciplined* when the caller's lease on that row has not lapsed
+    (`ack` needs no such condition: it deletes the row, which cannot hand it to a second worker) -/
+def disciplinedAct (s : State) : Act → Bool
+  | .reschedule w i _ | .extend w i => hasLive s w i
+  | _ => true
+
+def disciplined (s : State) : Op → Bool
+  | .act a | .crash a _ => disciplinedAct s a
+
+def disciplinedRun (s : State) : List Op → Bool
+  | [] => true
+  | op :: rest => disciplined s op && disciplinedRun (next s op) rest
+
+def liveOn (s : State) (i : Nat) : List Lease := s.leases.filter (fun l => l.live && l.id == i)
+
+def queueTags (s : State) : List Nat := s.rows.map (·.tag)
+def dlqTags (s : State) : List Nat := s.dlq.map (·.tag)
+
+/-- in how many places is payload `t` -/
+def places (s : State) (t : Nat) : Nat :=
+  (queueTags s).count t + (dlqTags s).count t + s.acked.count t
+
+/-! ### text protocol
+
+  request : `queue <maxAttempts> <op;op;…>`
+  ops     : `push:d` `pusht:m:d` `inject:b` `sel:w` `claim:w` `poll:w` `ack:w:id` `resched:w:id:d`
+            `extend:w:id` `expire:id` `mature:id` `dlq:id` `sweep` `replay:did` `crash:k:<op>`
+  answer  : per op `<out>#<rows>#<dlq>#<order of the deliverable rows>#<acked>` joined by `|`
+-/
+
+def parseAct (toks : List String) : Option Act :=
+  match toks with
+  | ["push", d] => do pure (.push (← Parse.bool? d))
+  | ["pusht", m, d] => do pure (.pushTxn (← Parse.nat? m) (← Parse.bool? d))
+  | ["inject", b] => do pure (.inject (← Parse.nat? b))
+  | ["sel", w] => do pure (.pollSelect (← Parse.nat? w))
+  | ["claim", w] => do pure (.pollClaim (← Parse.nat? w))
+  | ["poll", w] => do pure (.poll (← Parse.nat? w))
+  | ["ack", w, i] => do pure (.ack (← Parse.nat? w) (← Parse.nat? i))
+  | ["resched", w, i, d] => do pure (.reschedule (← Parse.nat? w) (← Parse.nat? i) (← Parse.bool? d))
+  | ["extend", w, i] => do pure (.extend (← Parse.nat? w) (← Parse.nat? i))
+  | ["expire", i] => do pure (.expire (← Parse.nat? i))
+  | ["mature", i] => do pure (.mature (← Parse.nat? i))
+  | ["dlq", i] => do pure (.moveToDlq (← Parse.nat? i))
+  | ["sweep"] => some .sweep
+  | ["replay", d] => do pure (.replay (← Parse.nat? d))
+  | _ => none
+
+def parseOp (s : String) : Option Op :=
+  match s.splitOn ":" with
+  | "crash" :: k :: rest => do pure (.crash (← parseAct rest) (← Parse.nat? k))
+  | toks => (parseAct toks).map .act
+
+def Lock.show : Lock → String
+  | .free => "f" | .held => "h" | .lapsed => "x"
+
+def b01 (b : Bool) : String := if b then "1" else "0"
+
+def showRow (r : Row) : String :=
+  s!"{r.id}.{r.tag}.{r.bad}.{r.attempts}.{r.maxAtt}.{r.version}.{r.lock.show}.{b01 r.deliverable}"
+
+def showDRow (d : DRow) : String := s!"{d.did}.{d.origId}.{d.tag}.{d.bad}.{d.attempts}"
+
+def listOr (xs : List String) : String := if xs.isEmpty then "-" else Parse.joinWith "," xs
+
+/-- insertion sort by `before` (stable: list order = id order breaks ties) -/
+def insertOrd (r : Row) : List Row → List Row
+  | [] => [r]
+  | x :: xs => if before r x then r :: x :: xs else x :: insertOrd r xs
+
+def ordered (rows : List Row) : List Row := rows.foldr insertOrd []
+
+def showState (s : State) : String :=
+  listOr (s.rows.map showRow) ++ "#" ++ listOr (s.dlq.map showDRow) ++ "#"
+    ++ listOr ((ordered (s.rows.filter (·.deliverable))).map (fun r => toString r.id)) ++ "#" ++ listOr (s.acked.map toString)
+
+def Out.show : Out → String
+  | .ok => "ok" | .none => "none" | .nosel => "nosel" | .raised => "raised" | .crashed => "crashed"
+  | .sel i v => s!"sel:{i}:{v}"
+  | .got i t a => s!"got:{i}:{t}:{a}"
+  | .bool b => b01 b
+  | .count n => s!"n{n}"
+
+def runShow (s : State) : List Op → List String
+  | [] => []
+  | op :: rest =>
+    let s' := next s op
+    ((outOf s op).show ++ "#" ++ showState s') :: runShow s' rest
+
+def drive (rest : String) : String :=
+  match rest.splitOn " " with
+  | [m, ops] =>
+    match Parse.nat? m, Parse.all? parseOp (Parse.splitNE ops ";") with
+    | some m, some ops => Parse.joinWith "|" (runShow (init m) ops)
+    | _, _ => "bad-request"
+  | _ => "bad-request"
 
 end Stab.Queue
